@@ -171,6 +171,20 @@ def h_inner(t, part):
     # the transport ends
     w.lose('e0')
     w.finish()
+    late = part.get('late')
+    if late:
+        # packets that follow the CLOSE packet in the client's last polling payload are still handed over by engine.io
+        if late == 'connect':
+            fr = worlds.encode_frames(w.P(packet.CONNECT, namespace='/a'))[0]
+        elif late == 'binary-header':
+            fr = worlds.encode_frames(w.P(packet.EVENT, data=['ev', b'a'], namespace='/'))[0]
+        else:
+            fr = worlds.encode_frames(w.P(packet.EVENT, data=['ev', 1], namespace='/', id=3))[0]
+        w.call(w.eio.recv_after_close('e0', fr))
+        w.finish()
+        got = w.sid('e0', '/a')
+        if got and got not in sids:
+            sids.append(got)
     if True:
         # a late enter_room (e.g. from an event handler still running in the background) for the dead session
         for sd in sids:
@@ -183,6 +197,8 @@ def h_inner(t, part):
     r = residue(w, 'e0', sids)
     if r:
         cause = 'handler-raised:%s' % inv['raised'] if inv['raised'] else 'no-fault'
+        if late:
+            cause = 'packet-after-close:%s' % late
         return Fail('residue:%s:%s' % (comp(r), cause), 'left behind: %r (sids %r)' % (r, sids))
     by_after = (sorted(w.s.rooms(b_sid)), w.s.manager.is_connected(b_sid, '/'))
     if by_after != by_before:
@@ -206,6 +222,9 @@ def parts(tier):
     # the same lives on a host of a pub/sub cluster (the claim is made for the host that owns the client)
     out += [{'async': a, 'always_connect': ac, 'n': n - 1, 'first': f, 'manager': 'pubsub'}
             for a in (False, True) for ac in (False, True) for f in range(len(OPS))]
+    # a Socket.IO packet behind the engine.io CLOSE in the last polling payload
+    out += [{'async': a, 'always_connect': False, 'n': 1, 'first': f, 'late': lt}
+            for a in (False, True) for lt in ('connect', 'binary-header', 'event') for f in (0, 4)]
     # asyncio: the handler coroutine ends in CancelledError (a BaseException); handlers with the legacy signature
     out += [{'async': True, 'always_connect': False, 'n': n - 1, 'first': f, 'fault': 'cancelled', 'legacy': lg}
             for lg in (False, True) for f in range(len(OPS))]
